@@ -34,18 +34,18 @@ CFG = {
                                  "C16_int", "C16_int_width", "C16_string", "C16_string_converse", "C16_string_iff", "C16_string_violations", "C16_float", "C16_float_render",
                                  "C16_match", "C16_assigned", "C16_match_none", "C16_match_fields",
                                  "C16_name_roundtrip", "C16_columns", "C16_match_self", "C16_struct_roundtrip",
-                                 "Layout.C16_container", "Layout.parseShape_shapeBytes", "Layout.readShapes_recs", "Layout.openDbf_header", "Layout.rawCell_rows",
+                                 "Layout.C16_container", "Layout.parseShape_shapeBytes", "Layout.readShapes_recs", "Layout.openDbf_header", "Layout.rawCell_rows", "Layout.writeAt_cell", "Layout.attrsStrict_spec", "Layout.attrsLenient_spec", "Layout.close_dbf", "Layout.emptyRecord_eq", "Layout.toShape_geom2ShpB", "Layout.encode_strict_step", "Layout.encode_lenient_step", "Layout.create_inv",
                                  "Gen.tie_widths", "Gen.tie_columns", "Gen.tie_lookup", "Gen.tie_cuts", "Gen.tie_write_order"]],
     "trusted_base": [
         "Lean 4.33.0 kernel; axioms of every theorem printed by #print axioms must be within {propext, Classical.choice, Quot.sound}",
         "harness/cmd/c16/extract (go/ast, ~300 lines) transcribes constants, lookup order, cut sets and write order of encoding/shp/shp.go into Gen.lean faithfully",
         "model lean/GeomV/C16/Model.lean is tied to /repo/encoding/shp/{shp.go,shp2geom.go} by the correspondence run through real temporary shapefiles (both encoder and both decoder paths, token-exact) on every check",
-        "go-shp's .shp/.shx/.dbf byte layout (github.com/jonas-p/go-shp, pinned by go.sum h1:h5O7ee4tlSPVjdC75eSLX7jXZiHftthuHio/GtrhaSM=, checked by the harness at run time): a file stores and returns the ordered rows (shape, cells) and the field list - external contract, exercised not proved",
+        "go-shp's .shp/.shx/.dbf byte layout (github.com/jonas-p/go-shp, pinned by go.sum h1:h5O7ee4tlSPVjdC75eSLX7jXZiHftthuHio/GtrhaSM=, checked by the harness at run time) is transcribed in lean/GeomV/C16/Layout.lean and tied by comparing, for every case, the model's .shp/.shx/.dbf bytes with the bytes of the real temporary files (exact) and the real bytes read back through the layout reader with the abstract row store; that the layout implements the row store is proved (Layout.C16_container); encoding/binary, os.File Seek/Write semantics (a gap past the end reads as zeros) are trusted",
         "Go strconv (Itoa/ParseInt/FormatFloat 'f'/ParseFloat correctly rounded), strings.Trim/ToLower, reflect behave as documented",
         "harness/cmd/c16 + lean driver + lib/vcheck.py transport inputs faithfully",
     ],
     "assumptions": [
-        "fewer than 2^31 points per shape and fewer than 2^15 bytes per attribute row (go-shp's int32/int16 counters)",
+        "fewer than 2^31 points per shape and fewer than 2^15 bytes per attribute row and header (go-shp's int32/int16 counters; the layout model uses Nat)",
         "column and field names without non-ASCII upper-case letters (the model lower-cases ASCII only)",
         "cells parsed as numbers hold decimal literals or FormatFloat's NaN/+Inf/-Inf (hex floats, '_' and other spellings of inf/nan are not modelled)",
         "a shape of the file's own shape type per record (go-shp writes the FILE's type into every record header, so a Null shape in a typed file is not readable; outside the statement)",
@@ -55,6 +55,7 @@ CFG = {
             "order, dropped/unmatched fields) or DecodeRowFields, or a reading SCHEDULE on one Decoder (record i read with call i mod k, k=2..4: DecodeRowFields with all names / subset / permuted / duplicates / none, mixed with DecodeRow); DecodeRow decodes into a fresh record variable per row or into ONE reused variable (per call site), with zero values ("", 0, 0.0) alternating with non-zero ones; 0-300 records of one geometry kind (point, multipoint, LineString, MultiLineString 0-6 parts "
             "incl. empty, polygon 0-5 rings closed/unclosed/closed-up-to-signed-zero, *Bounds incl. zero height/width, nil in NULL files), coordinates from random "
             "bit patterns/NaN payloads/+-0/+-Inf/subnormals/ordinary values; ints, floats and strings at the column-width boundaries. "
+            "every row's result (struct, map, geometry) is kept and printed only after the read loop reached the end of the file and Decoder.Close() ran; the bytes of the three real files are part of every answer. "
             "distinct = distinct input line; non-trivial = every class (a case always writes and reads a real file)",
     "trivial_class": r"^$",
     "timeout": {"quick": 600, "thorough": 3000},
